@@ -21,12 +21,12 @@ ASSUMPTIONS = ['tapers are those returned by dpss of the same tree (their correc
 
 def bounds(tier):
     q = tier == 'quick'
-    return {'N': [16, 17, 32] if q else [16, 17, 32, 64, 256, 1024], 'NW': [1.5, 2, 2.5, 4, 1.8, 2.3, 8], 'k': 'default and every 2..floor(2NW)', 'NFFT': 'N, N+1, 2N, 2N+1',
+    return {'N': [16, 17, 32] if q else [16, 17, 32, 64, 256, 1024], 'NW': [1.5, 2, 2.5, 4, 1.8, 2.3, 8], 'k': 'default and every 2..floor(2NW)', 'NFFT': 'N, N+1, 2N, 2N+1; omitted for N in %s' % ([16, 300] if q else [16, 33, 256, 257, 300, 700]), 'representations': 'float64/complex128, int16/uint8/int64, float32/complex64, amplitudes 1e-120 and 1e120',
             'methods': ['unity', 'eigen', 'adapt'], 'families': 'noise-like + tones, real and complex', 'histories': 'every ordered pair of (NW in {2,2.5,4}) x (k in {default,3}) x (unity, adapt) on one object, recomputed explicitly'}
 
 
 def expected_clauses(tier):
-    return ['eigenspectra', 'eigenvalues', 'weights_unity', 'weights_eigen', 'weights_adapt', 'adapt_fixed_point', 'class_psd', 'precomputed', 'history']
+    return ['eigenspectra', 'eigenvalues', 'weights_unity', 'weights_eigen', 'weights_adapt', 'adapt_fixed_point', 'class_psd', 'precomputed', 'history', 'default_nfft']
 
 
 def shards(tier):
@@ -36,10 +36,19 @@ def shards(tier):
         for cplx in (False, True):
             for NW in (1.5, 2.0, 2.5, 4.0, 1.8, 2.3, 8.0):
                 out.append((N, cplx, NW))
+    for N in ([16, 300] if q else [16, 33, 256, 257, 300, 700]):
+        out.append(('default_nfft', N))
     return out
 
 
 def run_shard(desc, R, tier):
+    if desc[0] == 'default_nfft':
+        # NFFT omitted: whatever grid the routine chooses must hold the whole record (NFFT >= N) and carry its DFT
+        N = desc[1]
+        for name, x in A.gen_real(N)[:1] + A.gen_cplx(N)[:1]:
+            for meth in ('unity', 'adapt'):
+                eval_point({'x': x, 'NW': 2.5, 'k': None, 'NFFT': 'default', 'method': meth, 'name': name}, R)
+        return
     N, cplx, NW = desc
     if not NW < N / 2.0 or (NW >= 8 and N < 32):
         return
@@ -50,6 +59,8 @@ def run_shard(desc, R, tier):
         fam = fam[:3] + fam[-3:]
     elif tier == 'quick':
         fam = fam[::3]
+    if NW in (2.0, 2.5):
+        fam = A.single(fam, 1) + A.extreme(fam, 1) + fam     # float32 / complex64 records; amplitudes 1e-120 and 1e120
     ks = [None] + list(range(2, int(math.floor(2 * NW)) + 1))
     if NW >= 8:
         ks = [None, 8]
@@ -103,22 +114,35 @@ def eval_point(pt, R):
     import spectrum
     x = np.asarray(pt['x'])
     N = len(x)
-    NW, k, nf, meth = float(pt['NW']), pt['k'], int(pt['NFFT']), pt['method']
+    NW, k, meth = float(pt['NW']), pt['k'], pt['method']
+    default_nfft = pt['NFFT'] == 'default'
+    nf = None if default_nfft else int(pt['NFFT'])
     cplx = np.iscomplexobj(x)
-    feats = {'method': meth, 'dtype': 'complex' if cplx else ('int' if x.dtype.kind in 'iu' else 'real'), 'nfft': 'odd' if nf % 2 else 'even'}
+    single = A.is_single(x)
+    u = 1e4 if single else 1.0          # float32 / complex64 records may be processed in single precision
+    feats = {'method': meth, 'dtype': ('complex' if cplx else ('int' if x.dtype.kind in 'iu' else 'real')) + ('-single' if single else ''),
+             'nfft': 'default' if default_nfft else ('odd' if nf % 2 else 'even')}
     R.point(pt)
     R.calls(2)
     try:
         tapers, lam = spectrum.dpss(N, NW, k)
         tapers, lam = np.asarray(tapers), np.asarray(lam)
-        Sk, w, ev = spectrum.pmtm(x, NW=NW, k=k, NFFT=nf, method=meth)
+        if default_nfft:
+            Sk, w, ev = spectrum.pmtm(x, NW=NW, k=k, method=meth)
+        else:
+            Sk, w, ev = spectrum.pmtm(x, NW=NW, k=k, NFFT=nf, method=meth)
         Sk, w, ev = np.asarray(Sk), np.asarray(w), np.asarray(ev)
     except Exception as e:
         R.viol('eigenspectra', dict(feats, exc=type(e).__name__), pt, repr(e), None, 'pmtm raised inside its domain')
         return
+    if default_nfft:
+        nf = int(Sk.shape[-1]) if Sk.ndim == 2 else 0
+        R.check(nf >= N, 'default_nfft', feats, pt, nf, '>= %d' % N, 'with NFFT omitted the routine chose a grid shorter than the record (the record is truncated)')
+        if nf < N:
+            return
     K = tapers.shape[1]
     ref = np.stack([rdft.dft(tapers[:, j] * A.prom(x), nf) for j in range(K)], axis=0)
-    R.check(Sk.shape == ref.shape and close(Sk, ref, 1e-9, 0.0), 'eigenspectra', feats, pt, Sk, ref, 'eigenspectrum j != NFFT-point DFT of taper_j * data', outs=(Sk,),
+    R.check(Sk.shape == ref.shape and close(Sk, ref, 1e-9 * u, 0.0), 'eigenspectra', feats, pt, Sk, ref, 'eigenspectrum j != NFFT-point DFT of taper_j * data', outs=(Sk,),
             err=relerr(Sk, ref) if Sk.shape == ref.shape else None)
     R.check(ev.shape == lam.shape and close(ev, lam, 1e-12, 0.0), 'eigenvalues', feats, pt, ev, lam, 'returned eigenvalues are not the taper concentration ratios')
     sig2 = float(np.real(np.vdot(A.prom(x), A.prom(x)))) / N
@@ -160,15 +184,19 @@ def eval_point(pt, R):
         if nit >= 100:
             R.skip('adapt_iteration_needs>=100_steps(cap of the routine)')
         else:
-            if resid is None:
+            if single:
+                R.skip('fixed_point_tolerance_not_asserted_for_single_precision_records')     # the weights are still compared with the reference iteration below
+            elif resid is None:
                 R.skip('thomson_inversion_ill_conditioned(all 1-lambda < 1e-4)')      # the weights are still compared with the reference iteration below
             else:
-              R.check(resid <= tol * (1 + 1e-6) + 1e-12 * sig2, 'adapt_fixed_point', feats, pt, resid, tol,
+              R.check(resid <= tol * (1 + 1e-6 * u) + 1e-12 * u * sig2, 'adapt_fixed_point', feats, pt, resid, tol,
                     'the spectrum behind the adaptive weights is not a fixed point of the weighted mean within the documented tolerance although the reference iteration converges in %d steps' % nit,
                     err=resid / max(tol, 1e-300))
-            R.check(close(w, wref, 1e-6, 1e-9), 'weights_adapt', dict(feats, sub='reference_iteration'), pt, w, wref,
+            R.check(close(w, wref, 1e-6 * u, 1e-9 * u), 'weights_adapt', dict(feats, sub='reference_iteration'), pt, w, wref,
                     'adaptive weights differ from the reference Thomson iteration')
         wfull = w.T
+    if default_nfft:
+        return
     # class PSD
     R.calls()
     try:
@@ -181,7 +209,7 @@ def eval_point(pt, R):
     if not cplx:
         L = nf // 2 + 1 if nf % 2 == 0 else (nf + 1) // 2
         exp = 2.0 * exp[:L]
-    R.check(psd.shape == exp.shape and not np.iscomplexobj(psd) and np.all(psd >= 0) and close(psd, exp, 1e-9, 0.0), 'class_psd', feats, pt, psd, exp,
+    R.check(psd.shape == exp.shape and not np.iscomplexobj(psd) and np.all(psd >= 0) and close(psd, exp, 1e-9 * u, 0.0), 'class_psd', feats, pt, psd, exp,
             'MultiTapering.psd != mean over tapers of weight * |eigenspectrum|^2 (doubled and folded for real data), real and non-negative',
             err=relerr(psd, exp) if psd.shape == exp.shape else None)
     # precomputed tapers
